@@ -4,6 +4,9 @@ import re
 def find(ctx, oblig, diag):
     m = re.search(r"subresource_list_contains\.([\w-]+)$", oblig)
     cases = [[m.group(1)]] if m else []
+    if "amz_headers" in oblig or "safety" in oblig or "undecided" in oblig:
+        cases += [["h:x-amzn-trace-id=Root=1-5f84c7a9"], ["h:x-amz-meta-a= v1 ", "h:x-amz-meta-a=v2", "h:x-amz-acl=private"],
+                  ["h:x-amz-meta-b=1", "h:x-amz-meta-a=2", "h:x-amzn-requestid=77", "acl"]]
     cases += [[], ["acl"], ["versionId=3"], ["torrent"], ["uploads"], ["response-content-type=text/plain", "versionId=1"]]
     res = None
     for q in cases:
